@@ -96,6 +96,45 @@ fn start_cmd(n: u32, kind: Kind, clear_at_once: bool, handles: &mut BTreeMap<u32
     }
 }
 
+/// A directly held timer command whose request is answered *and* whose handle is cleared between two
+/// polls: what it reports (and whether it sends a clear) must be a function of that history alone.
+/// Returns a description with the timer id left out. Used by the determinism check C11.
+pub fn direct_answer_and_clear(n: u32, at: bool) -> String {
+    let mut handles = BTreeMap::new();
+    let mut cmd = start_cmd(n, if at { Kind::At } else { Kind::After }, false, &mut handles);
+    let mut reqs: Vec<crux_core::Request<TimeRequest>> = vec![];
+    for e in cmd.effects() {
+        let Effect::Time(r) = e;
+        reqs.push(r);
+    }
+    let mut desc = vec![format!("requests:{}", reqs.len())];
+    if let Some(mut r) = reqs.pop() {
+        let id = match &r.operation {
+            TimeRequest::NotifyAt { id, .. } | TimeRequest::NotifyAfter { id, .. } => *id,
+            _ => return "unexpected first request".into(),
+        };
+        let resp = if at { TimeResponse::InstantArrived { id } } else { TimeResponse::DurationElapsed { id } };
+        desc.push(format!("answer_accepted:{}", r.resolve(resp).is_ok()));
+        if let Some(h) = handles.remove(&n) {
+            h.clear();
+        }
+        for e in cmd.effects() {
+            let Effect::Time(r2) = e;
+            desc.push(match &r2.operation {
+                TimeRequest::Clear { .. } => "sent:clear".to_string(),
+                other => format!("sent:{}", format!("{other:?}").split(' ').next().unwrap_or("?")),
+            });
+        }
+        for ev in cmd.events() {
+            if let TEvent::Outcome { completed, .. } = ev {
+                desc.push(format!("outcome:completed={completed}"));
+            }
+        }
+        desc.push(format!("done:{}", cmd.is_done()));
+    }
+    desc.join(",")
+}
+
 fn update_impl(ev: TEvent, model: &mut TModel, caps: Option<&TCaps>) -> Cmd {
     match ev {
         TEvent::Start { n, api: Api::Command, kind, clear_at_once } => start_cmd(n, kind, clear_at_once, &mut model.handles),
